@@ -18,6 +18,12 @@ import tlc  # noqa: E402
 from sdcheck import Result, execute_and_validate, random_tasks, run_mc, tasks_from_emitted  # noqa: E402
 
 Q = "quick"
+# thorough tier: workload sizes are multiplied by this factor (default 3: roughly 5-15 minutes per property on 16 cores)
+THOROUGH_SCALE = int(os.environ.get("VERIF_THOROUGH_SCALE", "3"))
+
+
+def N(q: bool, quick: int, thorough: int) -> int:
+    return quick if q else thorough * THOROUGH_SCALE
 FULL_BFS = {"op": "bfs", "n": 1, "lvl": -1, "size": -1}
 FULL_DFS = {"op": "dfs", "n": 1, "stk": -1, "size": -1}
 
@@ -63,8 +69,8 @@ def c02(res: Result):
     invs_mc = ["Inv_WF", "Inv_PartialFaithful", "Inv_FullExact", "Inv_MinExact"]
     recs = run_mc(res, "full", ["exp", "bfs", "dfs"], 1 if q else 2, [], [1000], invs_mc, 1)
     full = [r for r in recs if r["hist"][-1][0] in ("bfs", "dfs") and r["hist"][-1][1] == 1]
-    tasks = tasks_from_emitted(full, rng, 600 if q else 5000, "m")
-    for i, tt in enumerate(gen.network_pool(rng, 500 if q else 6000, [3, 3, 4, 4, 5] if q else [3, 4, 4, 5, 5, 6])):
+    tasks = tasks_from_emitted(full, rng, N(q, 600, 5000), "m")
+    for i, tt in enumerate(gen.network_pool(rng, N(q, 500, 6000), [3, 3, 4, 4, 5] if q else [3, 4, 4, 5, 5, 6])):
         tasks.append({"tid": f"r{i}", "tt": tt, "ops": [rng.choice([FULL_BFS, FULL_DFS])], "meta": "random-net full expansion"})
     tasks += gadget_tasks("g", [[FULL_BFS], [FULL_DFS]])
     tasks += feature_tasks("f", [[FULL_BFS], [FULL_DFS]], max_n=6)
@@ -90,8 +96,8 @@ def c04(res: Result):
         # every micro-state; histories of depth 2 are covered by the replayed runs)
         recs += [r for r in run_mc(res, "plain3", ops, 1, [0, 2, 3], [1000], invs_mc, 1, netmode="file")
                  if not any(h[0] == "min" and h[3] for h in r["hist"])]
-    tasks = tasks_from_emitted(recs, rng, 1500 if q else 20000, "m", tail=[FULL_BFS])
-    tasks += random_tasks(rng, 500 if q else 6000, [3, 3, 4, 4, 5] if q else [3, 4, 4, 5, 5, 6],
+    tasks = tasks_from_emitted(recs, rng, N(q, 1500, 20000), "m", tail=[FULL_BFS])
+    tasks += random_tasks(rng, N(q, 500, 6000), [3, 3, 4, 4, 5] if q else [3, 4, 4, 5, 5, 6],
                           gen.PLAIN_KINDS + ["blockplain"], (1, 4), "r", tail=[FULL_BFS])
     tasks += feature_tasks("f", None, rng=rng, hist=(gen.PLAIN_KINDS + ["cand", "blockplain"], (2, 5), [FULL_BFS], 3 if q else 12))
     invs = ["Inv_STRUCT", "Inv_XL", "Inv_RET", "Inv_ORACLE", "Inv_WF", "Inv_PartialFaithful", "Inv_PlainOnly", "Inv_FullExact"]
@@ -111,8 +117,8 @@ def c20(res: Result):
     recs = run_mc(res, "meta", ops, 2, [0, 2, 3], [1000], invs_mc, 1)
     if not q:
         recs += run_mc(res, "meta3", ["exp", "bfs", "dfs", "skipmin"], 2, [2], [1000], invs_mc, 2, netmode="file")
-    tasks = tasks_from_emitted(recs, rng, 1200 if q else 15000, "m")
-    tasks += random_tasks(rng, 600 if q else 8000, [3, 3, 4, 4, 5] if q else [3, 4, 4, 5, 5, 6],
+    tasks = tasks_from_emitted(recs, rng, N(q, 1200, 15000), "m")
+    tasks += random_tasks(rng, N(q, 600, 8000), [3, 3, 4, 4, 5] if q else [3, 4, 4, 5, 5, 6],
                           gen.PLAIN_KINDS + ["skipmin", "skiprem", "minskip", "pickle"], (1, 5), "r")
     tasks += gadget_tasks("g", [[FULL_BFS], [FULL_DFS], [{"op": "exp", "n": 1}, {"op": "exp", "n": 3}, FULL_BFS]])
     # deep diagrams with percolation shortcuts: many single-node expansions in random order
@@ -140,7 +146,7 @@ def c20(res: Result):
     shutil.rmtree(wd, ignore_errors=True)
     os.makedirs(wd)
     tf = os.path.join(wd, "traces.ndjson")
-    depthfuzz.record_many(1500 if q else 20000, res.seed + 1, tf)
+    depthfuzz.record_many(N(q, 1500, 20000), res.seed + 1, tf)
     out = tlc.validate_traces(tf, "DepthTrace", ["Inv_DEPTHSTEP", "Inv_DepthExactD"], wd)
     res.cov["traces_validated_against_impl"] += out["traces"]
     res.cov["states"] += out["states"]
@@ -173,14 +179,18 @@ def c03(res: Result):
     recs = run_mc(res, "min", ops, 2, [0, 2, 3], [1000], ["Inv_WF", "Inv_MinExact", "Inv_PartialFaithful", "Inv_ASeedsSound"], 1)
     recs = [r for r in recs if not any(h[0] == "block" for h in r["hist"])]      # (block histories are run from the random workload)
     tasks = []
-    sample = rng.sample(recs, min(len(recs), 1200 if q else 12000))
+    sample = rng.sample(recs, min(len(recs), N(q, 1200, 12000)))
     for i, r in enumerate(sample):
         tasks += tasks_from_emitted([r], rng, 1, f"m{i}_", tail=rng.choice(STRATEGY_TAILS + [[{"op": "skiprem"}]]))
-    pool = gen.network_pool(rng, 500 if q else 6000, [3, 3, 4, 4, 5] if q else [3, 4, 4, 5, 5, 6])
+    pool = gen.network_pool(rng, N(q, 500, 6000), [3, 3, 4, 4, 5] if q else [3, 4, 4, 5, 5, 6])
     for i, tt in enumerate(pool):
         tail = rng.choice(STRATEGY_TAILS + [[{"op": "skiprem"}]])
         tasks.append({"tid": f"r{i}", "tt": tt, "hseed": rng.randrange(1 << 30), "kinds": gen.PLAIN_KINDS,
                       "steps": rng.randint(0, 3), "tail": tail, "meta": "random prefix + strategy"})
+        if i % 5 == 0:
+            tasks.append({"tid": f"k{i}", "tt": tt, "meta": "size-limited block, then skip_remaining",
+                          "ops": [{"op": "block", "maa": rng.random() < 0.5, "optsrc": True, "exact": False, "size": rng.choice([1, 2, 3, 4, 6])},
+                                  {"op": "skiprem"}]})
         # block / scc from the root of a fresh diagram, all option combinations
         if i % 2 == 0:
             op = rng.choice([
@@ -190,6 +200,9 @@ def c03(res: Result):
             tasks.append({"tid": f"s{i}", "tt": tt, "ops": [op], "meta": "fresh block/scc/build"})
     for j, tail in enumerate(STRATEGY_TAILS + [[{"op": "skiprem"}]]):
         tasks += feature_tasks(f"f{j}", None, rng=rng, hist=(gen.PLAIN_KINDS, (0, 3), tail, 1 if q else 4))
+    tasks += feature_tasks("fk", [[{"op": "block", "maa": True, "optsrc": True, "exact": False, "size": z}, {"op": "skiprem"}] for z in (2, 3, 5, 7)],
+                           kinds=["new_source", "modules", "maa", "deep"], max_n=6)
+    tasks += gadget_tasks("gk", [[{"op": "block", "maa": True, "optsrc": True, "exact": False, "size": z}, {"op": "skiprem"}] for z in (2, 3, 5)])
     tasks += feature_tasks("fb", [[{"op": "block", "maa": m, "optsrc": o, "exact": False, "size": -1}] for m in (True, False) for o in (True, False)]
                            + [[{"op": "scc", "maa": m}] for m in (True, False)] + [[{"op": "build"}]])
     invs = ["Inv_MinExact", "Inv_WF"]
@@ -217,9 +230,9 @@ def c14(res: Result):
         r3 = run_mc(res, "cache3", ["exp", "skipmin", "skiprem", "seeds", "sets", "reclaim"], 2, [], [1000],
                     ["Inv_WF", "Inv_CacheFresh", "Inv_PartialFaithful"], 2, netmode="file")
         recs += [r for r in r3 if any(h[0] in ("cand", "seeds", "sets") for h in r["hist"][:-1])]
-    tasks = tasks_from_emitted(recs, rng, 1500 if q else 20000, "m")
+    tasks = tasks_from_emitted(recs, rng, N(q, 1500, 20000), "m")
     kinds = ["exp", "bfs", "dfs", "min", "minskip", "skipmin", "skiprem", "cand", "seeds", "seeds", "sets", "reclaim", "pickle", "block", "scc", "aseeds"]
-    tasks += random_tasks(rng, 600 if q else 8000, [3, 3, 4, 4, 5], kinds, (2, 6), "r")
+    tasks += random_tasks(rng, N(q, 600, 8000), [3, 3, 4, 4, 5], kinds, (2, 6), "r")
     tasks += gadget_tasks("g", [[{"op": "seeds", "n": 1}, {"op": "skipmin", "n": 1}],
                                 [{"op": "seeds", "n": 1}, {"op": "skiprem"}],
                                 [{"op": "sets", "n": 1}, {"op": "min", "n": 1, "size": -1, "skip": True}],
@@ -273,7 +286,7 @@ def c01(res: Result):
     nets2 = list(bn.all_networks(2))
     for i, tt in enumerate(nets2 if not q else rng.sample(nets2, 128)):
         tasks.append({"tid": f"a{i}", "tt": tt, "ops": rng.choice(COMPLETE_DEFAULT) + [{"op": "expseeds"}], "meta": "two-variable network"})
-    pool = gen.network_pool(rng, 450 if q else 6000, [3, 3, 4, 4, 5] if q else [3, 4, 4, 5, 5, 6])
+    pool = gen.network_pool(rng, N(q, 450, 6000), [3, 3, 4, 4, 5] if q else [3, 4, 4, 5, 5, 6])
     for i, tt in enumerate(pool):
         tasks.append({"tid": f"r{i}", "tt": tt, "ops": COMPLETE_DEFAULT[i % 6] + [{"op": "expseeds"}], "meta": "random net"})
     for j, strat in enumerate(COMPLETE_DEFAULT):
@@ -297,7 +310,7 @@ def c05(res: Result):
     ops = ["exp", "bfs", "min", "skipmin", "skiprem", "seeds"]
     recs = run_mc(res, "skip", ops, 3 if q else 4, [2], [1000], ["Inv_WF", "Inv_Seeds"], None)
     tasks = []
-    pool = gen.network_pool(rng, 700 if q else 8000, [2, 3, 3, 4, 4, 5] if q else [3, 4, 4, 5, 5, 6])
+    pool = gen.network_pool(rng, N(q, 700, 8000), [2, 3, 3, 4, 4, 5] if q else [3, 4, 4, 5, 5, 6])
     for i, tt in enumerate(pool):
         pre = rng.choice([[{"op": "bfs", "n": 1, "lvl": rng.choice([-1, 0, 1]), "size": rng.choice([1, 2, 3, 4, 6])}],
                           [{"op": "dfs", "n": 1, "stk": rng.choice([-1, 0, 1]), "size": rng.choice([1, 2, 3, 4, 6])}],
@@ -342,7 +355,7 @@ def c08(res: Result):
     rng = random.Random(res.seed + 8)
     recs = run_mc(res, "cand", ["exp", "skipmin", "cand"], 3, [], [1000], ["Inv_WF", "Inv_CacheFresh"], None)
     tasks = []
-    pool = gen.network_pool(rng, 700 if q else 9000, [2, 2, 3, 3, 4, 4, 5] if q else [2, 3, 4, 4, 5, 5, 6])
+    pool = gen.network_pool(rng, N(q, 700, 9000), [2, 2, 3, 3, 4, 4, 5] if q else [2, 3, 4, 4, 5, 5, 6])
     for i, tt in enumerate(pool):
         pre = rng.choice([[], [{"op": "exp", "n": 1}], [{"op": "bfs", "n": 1, "lvl": rng.choice([0, 1]), "size": -1}],
                           [{"op": "exp", "n": 1}, {"op": "skipmin", "n": 2}], [{"op": "skipmin", "n": 1}], [FULL_BFS]])
@@ -385,7 +398,7 @@ def c12(res: Result):
     rng = random.Random(res.seed + 12)
     recs = run_mc(res, "sets", ["exp", "cand", "seeds", "sets", "reclaim"], 3, [], [1000], ["Inv_WF", "Inv_CacheFresh"], None)
     tasks = []
-    pool = gen.network_pool(rng, 700 if q else 9000, [2, 3, 3, 4, 4, 5] if q else [3, 4, 4, 5, 5, 6])
+    pool = gen.network_pool(rng, N(q, 700, 9000), [2, 3, 3, 4, 4, 5] if q else [3, 4, 4, 5, 5, 6])
     for i, tt in enumerate(pool):
         pre = rng.choice([[], [{"op": "exp", "n": 1}], [FULL_BFS], [{"op": "bfs", "n": 1, "lvl": 0, "size": -1}]])
         qs = []
@@ -419,24 +432,34 @@ def c12(res: Result):
 def c15(res: Result):
     q = res.tier == Q
     rng = random.Random(res.seed + 15)
-    ops = ["exp", "bfs", "dfs", "min", "tgt", "aseeds", "skipmin", "skiprem"]
+    ops = ["exp", "bfs", "dfs", "min", "tgt", "aseeds", "skipmin", "skiprem", "block"]
     invs_mc = ["Inv_WF", "Inv_PartialFaithful", "Inv_CacheFresh", "Inv_RetFalse", "Inv_MinExact", "Inv_FullExact"]
     if q:
         recs = run_mc(res, "limits", ops, 2, [0, 2], [1, 1000], invs_mc, 1, failats=[0, 1, 2])
     else:
         recs = run_mc(res, "limits", ops, 2, [0, 1, 2, 3], [0, 1, 2, 1000], invs_mc, 1, failats=[0, 1, 2, 3])
     interesting = [r for r in recs if r["failat"] or r["maxm"] != 1000 or any(isinstance(x, int) and x >= 0 for h in r["hist"] for x in h[2:])]
-    tasks = tasks_from_emitted(interesting, rng, 1500 if q else 20000, "m")
+    tasks = tasks_from_emitted(interesting, rng, N(q, 1500, 20000), "m")
     # random networks: limited calls under small max_motifs_per_node, then the same call relaxed
-    pool = gen.network_pool(rng, 400 if q else 5000, [3, 3, 4, 4, 5] if q else [3, 4, 4, 5, 5, 6])
+    pool = gen.network_pool(rng, N(q, 400, 5000), [3, 3, 4, 4, 5] if q else [3, 4, 4, 5, 5, 6])
     for i, tt in enumerate(pool):
         cfg = {"maxm": rng.choice([0, 1, 2, 3, 100000, 100000]), "candlim": rng.choice([0, 1, 2, 100000]), "rsthr": 1000,
                "simbudget": 1000, "nfvsthr": 2000}
         tasks.append({"tid": f"r{i}", "tt": tt, "cfg": cfg, "hseed": rng.randrange(1 << 30),
-                      "kinds": gen.PLAIN_KINDS + ["skipmin", "skiprem", "minskip", "seeds", "cand", "sets"], "steps": rng.randint(2, 5),
+                      "kinds": gen.PLAIN_KINDS + ["skipmin", "skiprem", "minskip", "seeds", "cand", "sets", "block", "block"], "steps": rng.randint(2, 5),
                       "tail": [FULL_BFS], "meta": "limits + resource-limit errors"})
+    # size-limited block expansion on networks with source variables (also sources that appear after percolation)
+    srcnets = [tt for tt in gen.network_pool(rng, N(q, 400, 4000), [3, 4, 4, 5], ["modular"])
+               if any(all(tt[i][s] == ((s >> i) & 1) for s in range(1 << len(tt))) for i in range(len(tt)))]
+    import features as _features
+    srcnets += [tt for _, tt in _features.feature_networks(["new_source", "modules"], 6)]
+    for i, tt in enumerate(srcnets):
+        for z in (rng.choice([1, 2, 3]), rng.choice([4, 5, 6, 8])):
+            tasks.append({"tid": f"s{i}_{z}", "tt": tt, "meta": "size-limited block expansion with sources",
+                          "ops": [{"op": "block", "maa": rng.random() < 0.5, "optsrc": True, "exact": False, "size": z},
+                                  {"op": "block", "maa": True, "optsrc": True, "exact": False, "size": -1}]})
     # fault enumeration: every solver call of the last call fails once
-    fpool = gen.network_pool(rng, 150 if q else 2000, [3, 4, 4, 5])
+    fpool = gen.network_pool(rng, N(q, 150, 2000), [3, 4, 4, 5])
     for i, tt in enumerate(fpool):
         pre = rng.choice([[], [{"op": "exp", "n": 1}], [{"op": "bfs", "n": 1, "lvl": 0, "size": -1}]])
         last = rng.choice([FULL_BFS, FULL_DFS, {"op": "min", "n": 1, "size": -1, "skip": rng.random() < 0.5},
@@ -541,7 +564,7 @@ def c09(res: Result):
     q = res.tier == Q
     rng = random.Random(res.seed + 9)
     run_theorems(res, ["T_Rev", "T_Succ", "T_MinTrap"])
-    tasks = pure_tasks(rng, q, ["trappist", "reduced"], 12 if q else 60, [3, 3, 4, 4, 5] if q else [3, 4, 5, 5, 6], 400 if q else 4000)
+    tasks = pure_tasks(rng, q, ["trappist", "reduced"], 12 if q else 60, [3, 3, 4, 4, 5] if q else [3, 4, 5, 5, 6], N(q, 400, 4000))
     res.cov["rule"] = ("trappist (min / max / fix, both time directions, enclosing subspace, 0-3 avoided subspaces, source-variable lists "
                        "auto/none/explicit, solution limits none/0/1/2/3, Petri-net or network input) and compute_fixed_point_reduced_STG "
                        "(random retained sets, enclosing and avoided subspaces incl. the empty one, limits) on all 256 two-variable networks and "
@@ -555,7 +578,7 @@ def c09(res: Result):
 def c10(res: Result):
     q = res.tier == Q
     rng = random.Random(res.seed + 10)
-    tasks = pure_tasks(rng, q, ["pn", "restrict", "percnet"], 8 if q else 40, [3, 3, 4, 4, 5] if q else [3, 4, 5, 5, 6], 400 if q else 4000)
+    tasks = pure_tasks(rng, q, ["pn", "restrict", "percnet"], 8 if q else 40, [3, 3, 4, 4, 5] if q else [3, 4, 5, 5, 6], N(q, 400, 4000))
     res.cov["rule"] = ("network_to_petrinet, restrict_petrinet_to_subspace (also applied twice, as node_percolated_petri_net does) and "
                        "percolate_network (with/without constant removal) on all two-variable and random 3-6 variable networks; TLC checks "
                        "for every state of the subspace and every remaining variable that an up/down transition is enabled iff the update "
@@ -620,7 +643,7 @@ def c11(res: Result):
     rng = random.Random(res.seed + 11)
     run_theorems(res, ["T_Perc"])
     tasks = pure_tasks(rng, q, ["perc", "strict", "conflicts", "ldoi", "drivers"], 12 if q else 40,
-                       [3, 3, 4, 4, 5] if q else [3, 4, 5, 5, 6], 400 if q else 4000)
+                       [3, 3, 4, 4, 5] if q else [3, 4, 5, 5, 6], N(q, 400, 4000))
     res.cov["rule"] = ("percolate_space, percolate_space_strict, percolation_conflicts, find_single_node_LDOIs and find_single_drivers on every "
                        "subspace (trap space or not, consistent or conflicting) of all two-variable networks and gadgets, and random subspaces of "
                        "random 3-6 variable networks; TLC computes the least fixed point of value propagation (given values kept) from the truth "
@@ -689,7 +712,7 @@ def control_tasks(rng, q, with_history, count, sizes, calls):
 def c06(res: Result):
     q = res.tier == Q
     rng = random.Random(res.seed + 6)
-    tasks = control_tasks(rng, q, True, 300 if q else 4000, [3, 3, 4, 4] if q else [3, 4, 4, 5], 6 if q else 12)
+    tasks = control_tasks(rng, q, True, N(q, 300, 4000), [3, 3, 4, 4] if q else [3, 4, 4, 5], 6 if q else 12)
     res.cov["rule"] = ("succession_control on fresh diagrams and on diagrams already partially expanded / skipped / shortcut by random "
                        "strategies, random non-empty targets (trap spaces or not), both strategies, driver bounds none/0/1/2/N, forbidden sets, "
                        "skip_feedforward on/off. For every intervention reported successful TLC recomputes: the cumulative spaces are nested trap "
@@ -702,7 +725,7 @@ def c06(res: Result):
 def c07(res: Result):
     q = res.tier == Q
     rng = random.Random(res.seed + 7)
-    tasks = control_tasks(rng, q, False, 500 if q else 5000, [3, 3, 4, 4] if q else [3, 4, 4, 5], 10 if q else 16)
+    tasks = control_tasks(rng, q, False, N(q, 500, 5000), [3, 3, 4, 4] if q else [3, 4, 4, 5], 10 if q else 16)
     res.cov["rule"] = ("succession_control on fresh diagrams (random non-empty targets, both strategies, bounds none/0/1/2/N, forbidden sets, "
                        "successful_only on/off); TLC builds the expected answer from the full succession diagram of the truth tables: "
                        "target-directed sub-diagram, end nodes, all root-to-end paths x all motifs per edge, and per step all inclusion-minimal "
@@ -749,11 +772,11 @@ def c13(res: Result):
     # (3) the library: every kind of call on every kind of node; loop events, work counts, watchdog
     kinds = ["exp", "bfs", "dfs", "min", "minskip", "skipmin", "skiprem", "cand", "seeds", "seeds", "sets", "aseeds", "tgt",
              "block", "scc", "reclaim"]
-    tasks = random_tasks(rng, 700 if q else 12000, [3, 3, 4, 4, 5] if q else [3, 4, 4, 5, 5, 6], kinds, (2, 6), "r",
+    tasks = random_tasks(rng, N(q, 700, 12000), [3, 3, 4, 4, 5] if q else [3, 4, 4, 5, 5, 6], kinds, (2, 6), "r",
                          profiles=["sparse", "sparse", "modular", "mixed"], tail=[{"op": "allseeds"}])
     cfgs = [{"maxm": 100000, "candlim": 100000, "rsthr": t, "simbudget": b, "nfvsthr": f}
             for t in (1, 1000) for b in (0, 1000) for f in (0, 2000)]
-    tasks += random_tasks(rng, 200 if q else 3000, [3, 4, 4, 5], ["cand", "seeds", "sets", "exp", "skipmin"], (3, 6), "c", cfgs=cfgs,
+    tasks += random_tasks(rng, N(q, 200, 3000), [3, 4, 4, 5], ["cand", "seeds", "sets", "exp", "skipmin"], (3, 6), "c", cfgs=cfgs,
                           profiles=["sparse", "modular"])
     tasks += gadget_tasks("g", [[{"op": "seeds", "n": 1}], [{"op": "sets", "n": 1}], [{"op": "build"}],
                                 [FULL_BFS, {"op": "allseeds"}], [{"op": "exp", "n": 1}, {"op": "skiprem"}, {"op": "allseeds"}]])
@@ -861,7 +884,7 @@ def c19(res: Result):
     rng = random.Random(res.seed + 19)
     run_mc(res, "determinism", ["exp", "bfs", "dfs", "min", "skiprem", "seeds"], 2, [2], [1000], ["Inv_WF"], None)
     tasks = []
-    pool = gen.network_pool(rng, 110 if q else 1200, [3, 4, 4, 5, 5, 6], ["sparse", "modular", "mixed", "dense"])
+    pool = gen.network_pool(rng, N(q, 110, 1200), [3, 4, 4, 5, 5, 6], ["sparse", "modular", "mixed", "dense"])
     strategies = COMPLETE_DEFAULT + [[{"op": "min", "n": 1, "size": -1, "skip": True}, {"op": "skiprem"}], [{"op": "scc", "maa": False}],
                                      [{"op": "block", "maa": False, "optsrc": False, "exact": False, "size": -1}]]
     for i, tt in enumerate(pool):
@@ -889,7 +912,7 @@ def c16(res: Result):
     run_mc(res, "reclaim", ["exp", "bfs", "skipmin", "cand", "seeds", "sets", "reclaim"], 2, [2], [1000], ["Inv_WF", "Inv_CacheFresh"], None)
     tasks = []
     kinds = ["exp", "bfs", "dfs", "min", "minskip", "skipmin", "skiprem", "cand", "seeds", "sets", "tgt", "aseeds"]
-    pool = gen.network_pool(rng, 120 if q else 1500, [3, 3, 4, 4, 5], ["sparse", "modular", "mixed"])
+    pool = gen.network_pool(rng, N(q, 120, 1500), [3, 3, 4, 4, 5], ["sparse", "modular", "mixed"])
     for i, tt in enumerate(pool):
         n = len(tt)
         ops = []
@@ -926,7 +949,7 @@ def c17(res: Result):
     q = res.tier == Q
     rng = random.Random(res.seed + 17)
     tasks = []
-    pool = gen.network_pool(rng, 150 if q else 2500, [2, 3, 3, 4, 4, 5], ["sparse", "modular", "mixed", "dense"])
+    pool = gen.network_pool(rng, N(q, 150, 2500), [2, 3, 3, 4, 4, 5], ["sparse", "modular", "mixed", "dense"])
     pool += [tt for _, tt in gen.gadget_networks().items() if len(tt) <= 6]
     for i, tt in enumerate(pool):
         ops = list(rng.choice(COMPLETE_DEFAULT + [[{"op": "min", "n": 1, "size": -1, "skip": False}], [{"op": "scc", "maa": False}]])) + [{"op": "allsets"}]
@@ -939,7 +962,7 @@ def c17(res: Result):
                        "transformed truth tables by SDTrace. Name sanitization is validated in the C10/C17 pure events. Non-trivial: distinct presentations "
                        "of networks with >= 3 nodes.")
     # name sanitization (pure events): ASCII punctuation, brackets, collisions after sanitizing, non-ASCII letters and digits
-    ptasks = pure_tasks(rng, q, ["sanitize"], 9 if q else 30, [2, 3, 3, 4], 150 if q else 1500, exhaustive2=False, prefix="s")
+    ptasks = pure_tasks(rng, q, ["sanitize"], 9 if q else 30, [2, 3, 3, 4], N(q, 150, 1500), exhaustive2=False, prefix="s")
     run_pure(res, ptasks, ["Inv_SANITIZE"], "sanitize", lambda e: e["names_in"] != e["names_out"])
     run_twin(res, tasks, ["Inv_ISO", "Inv_MIN", "Inv_ATTR", "Inv_OUT"], ["Inv_WF", "Inv_C01", "Inv_MinExact", "Inv_PartialFaithful", "Inv_CacheFresh"],
              "sigma", lambda t: len(t["b"][-1]["post"]["nodes"]) >= 3)
@@ -950,10 +973,10 @@ def c18(res: Result):
     rng = random.Random(res.seed + 18)
     run_theorems(res, ["T_Attr", "T_MinTrap"])
     # (1) disjoint unions: validated directly against the composed truth tables (C01 / C03 invariants)
-    small = [tt for tt in gen.network_pool(rng, 60 if q else 400, [1, 2, 2, 3, 3], ["mixed", "sparse", "dense"]) if len(tt) >= 1]
+    small = [tt for tt in gen.network_pool(rng, N(q, 60, 400), [1, 2, 2, 3, 3], ["mixed", "sparse", "dense"]) if len(tt) >= 1]
     small += [tt for _, tt in gen.gadget_networks().items() if len(tt) <= 3]
     tasks = []
-    for i in range(150 if q else 2000):
+    for i in range(N(q, 150, 2000)):
         a, b = rng.choice(small), rng.choice(small)
         tt = bn.disjoint_union(a, b)
         strat = rng.choice(COMPLETE_DEFAULT)
@@ -963,7 +986,7 @@ def c18(res: Result):
     # (2) inputs fixed vs free
     tw = []
     k = 0
-    while len(tw) < (60 if q else 600) and k < 20000:
+    while len(tw) < (N(q, 60, 600)) and k < 20000:
         k += 1
         n = rng.choice([3, 4, 4, 5])
         tt = bn.random_network(rng, n, "modular")
@@ -1011,7 +1034,7 @@ def run_core_models(res: Result, q: bool, rng):
     files = sorted(glob.glob(os.path.join(repo, "models", "bbm-bnet-inputs-true", "*.bnet")))
     if q:
         files = rng.sample(files, 40)
-    tasks = [{"path": f, "max_core": 7 if q else 10, "max_local": 10 if q else 13, "timeout": 60 if q else 240} for f in files]
+    tasks = [{"path": f, "max_core": 7 if q else 10, "max_local": 10 if q else 13, "timeout": N(q, 60, 240)} for f in files]
     wd = os.path.join(sdcheck.WORK, res.pid, "coremodels")
     shutil.rmtree(wd, ignore_errors=True)
     os.makedirs(wd)
